@@ -385,6 +385,8 @@ def run(ctx):
     check_patterns_frozen(ctx, "R8", ce)
     ctx.rule("R9", "the registries are built from every module that carries the marker attribute (evaluated on a model listing)", "a format with an empty pattern list (QCSchema) vanishes from the registry, or modules are registered under another key / order")
     check_registry_builders(ctx, "R9")
+    ctx.rule("R10", "format / program selection as a decision table on a model registry (evaluated)", "a module that lacks the requested feature is selected by file name: the caller fails with AttributeError / an unrelated LoadError instead of FileFormatError")
+    check_selection_table(ctx, "R10")
 
 
 DECLARED = {"guaranteed", "ifpresent", "required", "optional"}
@@ -546,3 +548,78 @@ def check_registry_builders(ctx, rid):
             ctx.ok(rid, f"{f.name}: modules with `{marker}` (also an empty one) are registered under their own names in listing order; packages and modules without it are skipped", f.where)
         else:
             ctx.violate(rid, f"{f.name} on a model listing [alpha, beta_pkg (package), gamma (no {marker}), delta ({marker} empty)] registers {[g[0] for g in got] if got is not None else res!r}, expected ['alpha', 'delta'] mapped to their modules", f, f.node, construct=f"{f.name}: registers {[g[0] for g in got] if got is not None else None}")
+
+
+def check_selection_table(ctx, rid, which=("format", "input")):
+    """`_select_format_module` / `_select_input_module` as decision tables on a model registry: three format modules
+    (two share a pattern, one of them lacks `load_many`; one has no pattern at all) and every way of asking -- by file
+    name or by explicit format, for a feature the module has or lacks, for names nobody knows.  The answer is a module
+    of the registry that has the feature, or FileFormatError; never a module without it, never another exception."""
+    import fnmatch
+
+    from ..accessors import AccessorEval, Raised, Rec
+    from ..symarr import NotSymbolic
+
+    prog = ctx.prog
+    if "format" in which:
+        f = prog.func("iodata.api._select_format_module")
+        mods = {
+            "alpha": Rec(None, PATTERNS=["*.a", "*.shared"], load_one=1, dump_one=1),
+            "beta": Rec(None, PATTERNS=["*.b", "*.shared"], load_one=1, load_many=1),
+            "gamma": Rec(None, PATTERNS=[], dump_one=1),
+        }
+        E = "FileFormatError"
+        table = [
+            (("x.a", "load_one", None), "alpha"), (("x.a", "dump_one", None), "alpha"),
+            (("x.a", "load_many", None), E), (("x.b", "dump_one", None), E),
+            (("x.shared", "load_one", None), "alpha"), (("x.shared", "load_many", None), "beta"),
+            (("some.b/x.a", "load_one", None), "alpha"), (("/tmp/x.b", "load_many", None), "beta"),
+            (("x.unknown", "load_one", None), E), (("a", "load_one", None), E),
+            (("x.a", "load_one", "beta"), "beta"), (("x.a", "load_many", "alpha"), E),
+            (("x.a", "load_one", "nope"), E), (("x.q", "dump_one", "gamma"), "gamma"), (("x.q", "load_one", "gamma"), E),
+        ]
+        bad = None
+        for args, want in table:
+            ev = AccessorEval(prog, None, limit=4000)
+            ev.module = f.module
+            ev._globals = {("iodata.api", "FORMAT_MODULES"): mods}
+            ev.ext_stubs = {"fnmatch.fnmatch": lambda a, k: fnmatch.fnmatchcase(*a)}
+            try:
+                r = ev.run_free(f, list(args), {})
+                got = next((k for k, v in mods.items() if v is r), repr(r))
+            except Raised as exc:
+                got = exc.args[0]
+            except NotSymbolic as exc:
+                raise AnalysisError(f"_select_format_module is outside the evaluation whitelist: {exc}") from exc
+            if got != want:
+                bad = (args, got, want)
+                break
+        if bad:
+            args, got, want = bad
+            what = "the feature asked for" if want == E and got in mods else "the documented outcome"
+            ctx.violate(rid, f"_select_format_module{args} on a model registry (alpha: *.a *.shared with load_one dump_one; beta: *.b *.shared with load_one load_many; gamma: no pattern, dump_one) gives `{got}`, expected `{want}`" + (f": a module without `{args[1]}` is handed to the caller, which then fails with another exception class" if want == E and got in mods else ""), f, f.node, construct=f"format selection {args}: {got}")
+        else:
+            ctx.ok(rid, f"_select_format_module: {len(table)} requests on a model registry (by name / by format, feature present / absent, shared pattern, unknown names) give the module that has the feature or FileFormatError", f.where)
+    if "input" in which:
+        f = prog.func("iodata.api._select_input_module")
+        mods = {"prog": Rec(None, write_input=1), "other": Rec(None, write_input=1)}
+        bad = None
+        table = [(("x.in", "prog"), "prog"), (("x.in", "other"), "other"), (("x.in", "common"), "FileFormatError"), (("prog", "x"), "FileFormatError")]
+        for args, want in table:
+            ev = AccessorEval(prog, None, limit=2000)
+            ev.module = f.module
+            ev._globals = {("iodata.api", "INPUT_MODULES"): mods}
+            try:
+                r = ev.run_free(f, list(args), {})
+                got = next((k for k, v in mods.items() if v is r), repr(r))
+            except Raised as exc:
+                got = exc.args[0]
+            except NotSymbolic as exc:
+                raise AnalysisError(f"_select_input_module is outside the evaluation whitelist: {exc}") from exc
+            if got != want:
+                bad = (args, got, want)
+                break
+        if bad:
+            ctx.violate(rid, f"_select_input_module{bad[0]} on a model registry (prog, other) gives `{bad[1]}`, expected `{bad[2]}`", f, f.node, construct=f"input selection {bad[0]}: {bad[1]}")
+        else:
+            ctx.ok(rid, f"_select_input_module: registered names give their module, any other name FileFormatError ({len(table)} requests)", f.where)
